@@ -1,6 +1,7 @@
 import Model.Hash.Prep
 import Model.Hash.Sha256
 import Model.Py.Wire
+import Model.Hash.Memo
 namespace Hash
 open Py
 
@@ -19,6 +20,20 @@ def hashLine (ts : List String) : String :=
     | some cfg, some (v, []) =>
       let (h, n) := hashV cfg Sha256.hex v
       Wire.encStr h ++ " " ++ toString n
+    | _, _ => "bad-op"
+  | _ => "bad-op"
+
+/-- `HASHM <cfg> <w> <v>`: `DeepHash(w)`, then `DeepHash(v, hashes=<that table>)` ↦ `<hash w> <count> <hash v> <count>` -/
+def hashmLine (ts : List String) : String :=
+  match ts with
+  | c :: rest =>
+    match parseCfg c, parseVal (rest.length + 1) rest with
+    | some cfg, some (w, rest2) =>
+      (match parseVal (rest2.length + 1) rest2 with
+       | some (v, []) =>
+         let r := deepHashShared cfg Sha256.hex w v
+         Wire.encStr r.1.1 ++ " " ++ toString r.1.2 ++ " " ++ Wire.encStr r.2.1 ++ " " ++ toString r.2.2
+       | _ => "bad-op")
     | _, _ => "bad-op"
   | _ => "bad-op"
 
